@@ -345,7 +345,7 @@ func (w *World) IsProd(fn *ssa.Function) bool {
 func (w *World) ProdFuncs() []*ssa.Function {
 	var out []*ssa.Function
 	for _, f := range w.AllFuncs {
-		if w.IsProd(f) {
+		if w.IsProd(f) && !w.Folded(f) {
 			out = append(out, f)
 		}
 	}
@@ -357,7 +357,7 @@ func (w *World) FuncsInPkg(suffix string) []*ssa.Function {
 	var out []*ssa.Function
 	for _, f := range w.AllFuncs {
 		p := fnPkg(f)
-		if p != nil && strings.HasSuffix(p.Pkg.Path(), suffix) {
+		if p != nil && strings.HasSuffix(p.Pkg.Path(), suffix) && !w.Folded(f) {
 			out = append(out, f)
 		}
 	}
